@@ -40,6 +40,9 @@ func suiteHash(c *ctx) {
 	}
 	for i := 0; i < n; i++ {
 		dialect := []string{"mysql", "mysql", "mysql", "postgres", "sqlite3"}[c.rng.Intn(5)]
+		if i == 0 {
+			dialect = "mysql" // the first case is fixed below (C07-a: two indexes on one table, so that "permuted-indexes" differs)
+		}
 		if c.dialect != "" {
 			dialect = c.dialect
 		}
@@ -48,6 +51,11 @@ func suiteHash(c *ctx) {
 		var s *gSchema
 		for s == nil || len(s.Tables) == 0 {
 			s = g.schema(schemaOpts{maxTables: 1 + c.rng.Intn(3), maxCols: 1 + c.rng.Intn(5), indexes: true, fks: false})
+		}
+		if i == 0 && c.dialect == "" {
+			s = &gSchema{Tables: []*gTable{{Name: "t", Cols: []ColDef{{Name: "id", Typ: "int(11)", Opts: []Opt{{Kind: "notnull"}, {Kind: "pk"}}}, {Name: "a", Typ: "int(11)"}, {Name: "b", Typ: "varchar(64)"}, {Name: "c", Typ: "int(11)"}},
+				Idx: []gIndex{{Name: "i1", Cols: []string{"a"}}, {Name: "i2", Cols: []string{"b", "c"}, Unique: true}}},
+				{Name: "u", Cols: []ColDef{{Name: "x", Typ: "int(11)"}, {Name: "y", Typ: "decimal(10,2)"}}}}}
 		}
 		base := s.scriptGrouped()
 		whole := func(ss []Stmt) [][]Stmt {
